@@ -17,7 +17,7 @@ RULE = ('scenario = (entry point, format {.p8,.p8.png}, destination {absent, exi
         'combinations in which a write can start, + .p8.png over 8 kinds of unreadable label file x 3 writers), and '
         'pico8.tool.main for `luafmt --overwrite x.p8` (destination = the input), `luamin` (.p8/.p8.png, existing '
         'x_fmt), `writep8`, `build OUT --lua src.lua` and `build OUT --gfx other` over an existing OUT (.p8 and '
-        '.p8.png). Per scenario a fault-free dry run counts the N write calls the format encoder makes on its output '
+        '.p8.png; --lua also with OUT absent). Per scenario a fault-free dry run counts the N write calls the format encoder makes on its output '
         'stream (temporary file, any file pico8.* opens for writing, the stream given to the encoder); then a fault '
         '(short write + OSError) is injected at EVERY k in [0,N) - this write-index dimension is enumerated '
         'completely for each sampled cart (exhaustive: true refers to it; the shards\' counts are cross-checked '
@@ -57,6 +57,7 @@ CLI_SCENARIOS = (
     ('writep8', 'p8', 'absent', 'default'),
     ('writep8', 'png', 'valid', 'default'),
     ('build_lua', 'p8', 'valid', 'default'),
+    ('build_lua', 'p8', 'absent', 'default'),
     ('build_lua', 'png', 'valid', 'default'),
     ('build_gfx', 'p8', 'valid', 'minify'),
     ('build_gfx', 'png', 'valid', 'default'),
@@ -467,13 +468,28 @@ def run_spec(ctx, sc, spec, good, n):
     sample = {'scenario': scn_key(sc.scn), 'fault': dict(spec), 'N': n, 'fired': inj.fired_what,
               'outcome': show(repr(err), 70) if err is not None else 'rc=%r' % rc,
               'dest_bytes_before': None if sc.before is None else len(sc.before)}
-    ctx.stats.case((scn_key(sc.scn), sorted(spec.items())), fired and sc.before is not None, sample, labs)
+    nontrivial = fired and sc.before is not None
+    sampled = ctx.__dict__.setdefault('_c11_sampled', set())
+    if nontrivial and kind not in sampled:
+        sampled.add(kind)           # one written-out sample per fault kind rather than six consecutive k
+    else:
+        sample = None
+    ctx.stats.case((scn_key(sc.scn), sorted(spec.items())), nontrivial, sample, labs)
 
 
 def run_scenario(ctx, scn, si):
     case0 = {'scn': dict(scn), 'spec': {'kind': 'none'}}
     with tempfile.TemporaryDirectory(prefix='c11_') as td:
-        mine = lambda i: (i + si) % ctx.nshards == ctx.shard
+        if ctx.quick:
+            # few scenarios: every shard opens each scenario and takes its slice of the fault list
+            mine = lambda i: (i + si) % ctx.nshards == ctx.shard
+            owner = ctx.shard == 0
+        else:
+            # many scenarios: a scenario (with its whole fault list) belongs to one shard
+            if si % ctx.nshards != ctx.shard:
+                return
+            mine = lambda i: True
+            owner = True
         single = ('label_unreadable' if scn['fmt'] == 'png' and scn['dest'] == 'garbage' else
                   'natural' if scn['path'] == 'build_lua_format' else None)
         if single and not mine(0):
@@ -486,8 +502,9 @@ def run_scenario(ctx, scn, si):
         if n is None:
             ctx.stats.count('no_working_cart')
             return
-        if sc.attempt:
-            ctx.stats.count('cart_regenerated')
+        if sc.attempt and owner:
+            # picotool failed by itself on the first cart(s) (judged like any failure); another cart is used
+            ctx.stats.count('cart_regenerated_after_natural_failure')
         ctx.stats.extra.setdefault('scenarios', set()).add('%s=%d' % (scn_key(scn), n))
         specs = [{'kind': 'stream_write', 'k': k} for k in range(n)] + internal_specs(sc)
         for i, spec in enumerate(specs):
@@ -504,7 +521,7 @@ def draw_salts(ctx, name, n):
 
     def body(b):
         b = bytes(b)
-        if b not in out:
+        if any(b) and b not in out:      # Hypothesis' first draw is all zeros for every seed: skip it
             out.append(b)
     c0.hyp(name, st.binary(min_size=6, max_size=6), body, max_examples=n + 3)
     i = 0
@@ -546,7 +563,7 @@ def part_cli(ctx):
 
 def parts(tier):
     if tier == 'quick':
-        return [('lib', part_lib, 7), ('cli', part_cli, 9)]
+        return [('lib', part_lib, 6), ('cli', part_cli, 10)]
     return [('lib', part_lib, 16), ('cli', part_cli, 16)]
 
 
